@@ -114,7 +114,7 @@ func c07H2FrameMatrix() []c07H2Hostile {
 
 func TestVerif_C07_h2frames(t *testing.T) {
 	s := verifh.New(t, "C07", "h2frames",
-		"HTTP/2 frame-field boundary matrix: one hostile frame per case — SETTINGS (ids 0..8 x values 0,1,2,2^14-1,2^14,2^14+1,2^24-1,2^24,2^31-1,2^31,2^32-1; duplicate id; ACK with payload; 7 bytes), WINDOW_UPDATE (same increments), RST_STREAM codes, GOAWAY (last-stream-id x code), PING (flags), PRIORITY (self / zero / exclusive dependency), DATA (flags x pad byte), HEADERS (flags x pad byte x priority bytes), CONTINUATION, PUSH_PROMISE (promised id), unknown types — each on stream 0 / the request's stream / an even / an idle / the maximal / a reserved-bit id, each with its exact length, one byte short, empty and one byte long, at one of three positions (before the response HEADERS, between HEADERS and DATA, after END_STREAM), for GET and for a 70 kB PUT; quick tier: a seed-dependent quarter (every frame kind still present), thorough: all; oracle: the call returns response-or-error within the watchdog, no panic; follow-up request; census of HTTP/2 goroutines; every case non-trivial")
+		"HTTP/2 frame-field boundary matrix: one hostile frame per case — SETTINGS (ids 0..8 x values 0,1,2,2^14-1,2^14,2^14+1,2^24-1,2^24,2^31-1,2^31,2^32-1; duplicate id; ACK with payload; 7 bytes), WINDOW_UPDATE (same increments), RST_STREAM codes, GOAWAY (last-stream-id x code), PING (flags), PRIORITY (self / zero / exclusive dependency), DATA (flags x pad byte), HEADERS (flags x pad byte x priority bytes), CONTINUATION, PUSH_PROMISE (promised id), unknown types — each on stream 0 / the request's stream / an even / an idle / the maximal / a reserved-bit id, each with its exact length, one byte short, empty and one byte long, at one of three positions (before the response HEADERS, between HEADERS and DATA, after END_STREAM), for GET and for a 70 kB PUT, with and without a declared content-length; quick tier: a seed-dependent quarter (every frame kind still present), thorough: all; oracle: the call returns response-or-error within the watchdog, no panic; follow-up request; census of HTTP/2 goroutines; every case non-trivial")
 	peer := newC07H2Peer(t)
 	defer peer.closeAll()
 	base := "http://" + peer.ln.Addr().String()
@@ -128,6 +128,7 @@ func TestVerif_C07_h2frames(t *testing.T) {
 	s.Count("matrix-size:" + strconv.Itoa(len(matrix)))
 	settings := c07Frame{-1, 4, 0, 0, nil}.bytes()
 	head := c07Frame{-1, 1, 0x4, 1, c07Hpack([2]string{":status", "200"}, [2]string{"content-type", "text/plain"})}.bytes()
+	headCL := c07Frame{-1, 1, 0x4, 1, c07Hpack([2]string{":status", "200"}, [2]string{"content-type", "text/plain"}, [2]string{"content-length", "5"})}.bytes()
 	data := c07Frame{-1, 0, 1, 1, []byte("hello")}.bytes()
 	wedges := 0
 	seq := 0
@@ -141,6 +142,10 @@ func TestVerif_C07_h2frames(t *testing.T) {
 				break
 			}
 			seq++
+			head := head
+			if seq%2 == 0 {
+				head = headCL // a declared content-length: extra DATA / END_STREAM variants hit the bytesRemain accounting
+			}
 			var out bytes.Buffer
 			out.Write(settings)
 			switch pos {
